@@ -167,11 +167,28 @@ def run(run):
             owner[(k % 2, k // 2)] = (lo_deg, hi_deg)
         problems = []
         unknown = None
-        for kk in range(17):
-            deg = kk * 22.5
+        # sample longitudes: every k*pi/8, plus every constant the function compares the longitude with and a point just
+        # below / above it -- one representative of every region on which the (piecewise constant) answer can change
+        pi_f = sym.Fr(math.pi)
+        samples = {sym.Fr(kk, 8) * pi_f for kk in range(17)}
+        for pc_, t_, n_ in rs.returns:
+            for c_ in pc_:
+                if c_[0] == "loop":
+                    continue
+                for a_ in atoms_of(c_[0]):
+                    if a_[0] == "op" and a_[1].startswith("cmp:") and lon_s in atoms_of(a_):
+                        for side in a_[2]:
+                            v_ = teval(side, {PI: pi_f})
+                            if v_ is not UNKNOWN and isinstance(v_, (int, float, sym.Fr)) and not isinstance(v_, bool):
+                                v_ = sym.Fr(v_)
+                                if 0 <= v_ <= 2 * pi_f:
+                                    eps = sym.Fr(1, 10 ** 9)
+                                    samples |= {v_, max(v_ - eps, sym.Fr(0)), min(v_ + eps, 2 * pi_f)}
+        for lonv in sorted(samples):
+            deg = float(lonv / pi_f * 180)
             claim = []
             for (x, y) in owner:
-                envt = {lon_s: sym.Fr(kk, 8) * sym.Fr(math.pi), posx: x, posy: y, posn: 1, PI: sym.Fr(math.pi),
+                envt = {lon_s: lonv, posx: x, posy: y, posn: 1, PI: pi_f,
                         ("attr", tile_p, "pos"): (1, x, y)}
                 val = UNKNOWN
                 for pc, t, n in rs.returns:
@@ -190,8 +207,9 @@ def run(run):
                     claim.append((x, y))
             if unknown:
                 break
-            inside = [p_ for p_, (lo, hi) in owner.items() if lo < deg < hi]
-            touching = [p_ for p_, (lo, hi) in owner.items() if lo <= deg <= hi or (deg == 0 and hi == 360) or (deg == 360 and lo == 0)]
+            on_boundary = min(abs(deg - b_) for b_ in (0, 90, 180, 270, 360)) < 1e-12
+            inside = [] if on_boundary else [p_ for p_, (lo, hi) in owner.items() if lo < deg < hi]
+            touching = [p_ for p_, (lo, hi) in owner.items() if lo - 1e-12 <= deg <= hi + 1e-12 or (deg < 1e-12 and hi == 360) or (deg > 360 - 1e-12 and lo == 0)]
             if inside:
                 if claim != inside:
                     problems.append("longitude %g deg lies in the quadrant of tile (1,%d,%d) of the corner table but the score function accepts %s" % (
@@ -208,7 +226,8 @@ def run(run):
             run.violated("C12.R3", sc, None, "level-1 quadrant test disagrees with the level-1 corner table: " + "; ".join(problems[:2]), kind=kind)
         else:
             run.holds("C12.R3", sc, None, "level-1 quadrants accepted by the score function match the equatorial corners of the level-1 table "
-                      "(17 longitudes x 4 positions; every boundary longitude is accepted by a touching tile)")
+                      "(%d longitudes x 4 positions: every k*pi/8 and both sides of every constant the longitude is compared with; "
+                      "every boundary longitude is accepted by a touching tile)" % len(samples))
     # ---- R4 score
     hs = project.fn(T + "._left_of_half_space_score")
     run.note_func(hs)
